@@ -82,6 +82,7 @@ type Frame struct {
 	visited map[*ssa.BasicBlock]*loopVisit
 	locals  map[string]Value // source-level locals by name (from DebugRef)
 	entered bool             // entry handling (phis, cut point) of blk has been done
+	entry   *State           // snapshot at the frame's entry (old() in clauses of inlined functions)
 	prefix  string // obligation-name prefix for inlined frames
 	depth   int
 }
@@ -716,7 +717,7 @@ func (fx *FuncCtx) havocLoop(st *State, f *Frame, head *ssa.BasicBlock, body map
 	for _, k := range keys {
 		p := wl.writes[k]
 		old := st.Load(p, nil)
-		nv := fx.havocValue(old, "hv."+p.Obj.Name)
+		nv := fx.havocValue(old, "hv."+p.Obj.Name+fieldPathName(p))
 		st.heap[p.Obj] = fx.inject(st.objValue(p.Obj), p.Path, nv)
 		// propagate to outer logs
 		st.logWrite(p)
@@ -892,4 +893,21 @@ func (st *State) siteObject(in ssa.Instruction, t types.Type, name string) *Obje
 	o := fx.newObject(t, name)
 	fx.siteObjs[key] = o
 	return o
+}
+
+func fieldPathName(p PtrVal) string {
+	var b strings.Builder
+	t := p.Obj.T
+	for _, e := range p.Path {
+		if e.Field < 0 || t == nil {
+			break
+		}
+		st, ok := t.Underlying().(*types.Struct)
+		if !ok || e.Field >= st.NumFields() {
+			break
+		}
+		b.WriteString("." + st.Field(e.Field).Name())
+		t = st.Field(e.Field).Type()
+	}
+	return b.String()
 }
